@@ -71,6 +71,9 @@ struct Gen<'a> {
     remembered: u32,
     used: Vec<&'static str>,
     hostile: bool,
+    /// sum of the code advances so far / the most the FDE's range field can hold
+    advanced: u64,
+    budget: u64,
 }
 
 impl<'a> Gen<'a> {
@@ -107,22 +110,49 @@ impl<'a> Gen<'a> {
         }
         *self.r.pick(&[0u64, 8, 16, 127, 128, 4096, 0x7fff_ffff])
     }
+    /// may the program advance by `delta` factored units?  (keeps every row inside the FDE's range)
+    fn advance_ok(&mut self, delta: u64) -> bool {
+        let add = delta.saturating_mul(self.code);
+        if self.advanced.saturating_add(add) > self.budget {
+            return false;
+        }
+        self.advanced += add;
+        true
+    }
     fn emit(&mut self, a: &mut Asm, what: &'static str) {
         self.used.push(what);
         match what {
             "advance_loc" => {
                 let d = 1 + self.r.below(0x3f);
-                a.u8(0x40 | d as u8);
+                if self.advance_ok(d) {
+                    a.u8(0x40 | d as u8);
+                } else {
+                    a.u8(0);
+                }
             }
             "advance_loc1" => {
-                a.u8(0x02).u8(*self.r.pick(&[1u8, 0x3f, 0x40, 0xff]));
+                let d = *self.r.pick(&[1u8, 0x3f, 0x40, 0xff]);
+                if self.advance_ok(d as u64) {
+                    a.u8(0x02).u8(d);
+                } else {
+                    a.u8(0);
+                }
             }
             "advance_loc2" => {
-                a.u8(0x03).u16(*self.r.pick(&[1u16, 0x100, 0xffff]));
+                let d = *self.r.pick(&[1u16, 0x100, 0xffff]);
+                if self.advance_ok(d as u64) {
+                    a.u8(0x03).u16(d);
+                } else {
+                    a.u8(0);
+                }
             }
             "advance_loc4" => {
                 let d = if self.hostile { *self.r.pick(&[0x1_0000u32, 0x7fff_ffff, 0xffff_ffff]) } else { *self.r.pick(&[1u32, 0x1_0000, 0x10_0000]) };
-                a.u8(0x04).u32(d);
+                if self.advance_ok(d as u64) {
+                    a.u8(0x04).u32(d);
+                } else {
+                    a.u8(0);
+                }
             }
             "offset" => {
                 let reg = self.r.below(0x40);
@@ -335,7 +365,7 @@ fn gen_frame(r: &mut Rng, enc: Enc, shape: FrameShape, code: u64, data: i64, foc
             a.uleb(d.len() as u64).bytes(&d.buf);
         }
         {
-            let mut g = Gen { r: &mut *r, enc, code: code_f, data: data_f, remembered: 0, used: vec![], hostile: false };
+            let mut g = Gen { r: &mut *r, enc, code: code_f, data: data_f, remembered: 0, used: vec![], hostile: false, advanced: 0, budget: 0 };
             // initial instructions: def_cfa r7+8, ra saved at one factored slot
             let mut ia = Asm::new(enc.le);
             ia.u8(0x0c).uleb(7).uleb(8);
@@ -363,10 +393,46 @@ fn gen_frame(r: &mut Rng, enc: Enc, shape: FrameShape, code: u64, data: i64, foc
             } else {
                 a.word(w, cie_off as u64);
             }
-            let start = (0x100 * (fde_count as u64) + r.below(0x40)) & mask;
-            let len = if hostile && asz == 8 && r.chance(1, 4) { 1u64 << 33 } else { 0x40 + r.below(0x40) };
             let has_r = shape.eh && aug.contains(&b'R');
             let fenc = if has_r { shape.fde_enc } else { 0 };
+            // how large an address range the FDE's range field can hold
+            let field_bits: u32 = match fenc & 0x0f {
+                0x00 => 8 * asz as u32,
+                0x02 | 0x0a => 16,
+                0x03 | 0x0b => 32,
+                _ => 64,
+            };
+            let budget: u64 = if field_bits >= 64 { 1u64 << 40 } else { (1u64 << (field_bits - 1)) - 0x200 };
+            // instructions first (their total advance decides the range)
+            let mut ia = Asm::new(enc.le);
+            let advanced;
+            {
+                let code_f = if c == 0 { code } else { 1 };
+                let data_f = if c == 0 { data } else { -8 };
+                let mut g = Gen { r: &mut *r, enc, code: code_f, data: data_f, remembered: 0, used: vec![], hostile: hostile && f == 0, advanced: 0, budget };
+                let n = 2 + g.r.below(8);
+                let mut placed = focus.is_none();
+                for k in 0..n {
+                    let what: &'static str = if !placed && (k == 1 || g.r.chance(1, 3)) {
+                        placed = true;
+                        focus.unwrap()
+                    } else {
+                        let mut w2 = *g.r.pick(INSNS);
+                        if w2 == "set_loc" {
+                            w2 = "nop";
+                        }
+                        w2
+                    };
+                    g.emit(&mut ia, what);
+                }
+                if !placed {
+                    g.emit(&mut ia, focus.unwrap());
+                }
+                advanced = g.advanced;
+                used.extend(g.used.iter());
+            }
+            let start = (0x100 * (fde_count as u64) + r.below(0x40)) & mask;
+            let len = advanced + 1 + r.below(0x40);
             // pc_begin
             let field_at = a.len() as u64;
             let app = fenc & 0x70;
@@ -413,36 +479,7 @@ fn gen_frame(r: &mut Rng, enc: Enc, shape: FrameShape, code: u64, data: i64, foc
                 }
                 a.uleb(d.len() as u64).bytes(&d.buf);
             }
-            // instructions
-            {
-                let code_f = if c == 0 { code } else { 1 };
-                let data_f = if c == 0 { data } else { -8 };
-                let mut g = Gen { r: &mut *r, enc, code: code_f, data: data_f, remembered: 0, used: vec![], hostile: hostile && f == 0 };
-                let n = 2 + g.r.below(8);
-                let mut placed = focus.is_none();
-                for k in 0..n {
-                    let what: &'static str = if !placed && (k == 1 || g.r.chance(1, 3)) {
-                        placed = true;
-                        focus.unwrap()
-                    } else {
-                        let mut w2 = *g.r.pick(INSNS);
-                        if w2 == "set_loc" {
-                            w2 = "nop";
-                        }
-                        // keep the total advance inside u32 unless hostile
-                        if w2 == "advance_loc4" && g.code > 8 && !g.hostile {
-                            w2 = "advance_loc1";
-                        }
-                        w2
-                    };
-                    g.emit(&mut a, what);
-                }
-                if !placed {
-                    g.emit(&mut a, focus.unwrap());
-                }
-                let _ = (g.code, g.data);
-                used.extend(g.used.iter());
-            }
+            a.bytes(&ia.buf);
             pad(&mut a, fde_off, if shape.eh { 4 } else { asz.max(4) });
             a.end_length(m);
         }
